@@ -12,6 +12,9 @@ package c17
 //                                    called with (own pid, SIGTERM) (hook=true; gated like the others)
 //   -> {"cmd":"shutdown"}  Restarter.Shutdown(), what main does on SIGTERM      <- {"ev":"down"}
 //   -> {"cmd":"sync","n":k}                                                      <- {"ev":"sync","n":k}
+//   -> {"cmd":"starve"}    use up every file descriptor of this process (RLIMIT_NOFILE lowered, /dev/null opened
+//                          until EMFILE): accept on the control socket fails transiently   <- {"ev":"starved","n":held}
+//   -> {"cmd":"feed"}      release them, restore the limit (also automatic after 2 s)      <- {"ev":"fed"}
 //   -> {"cmd":"end"}       shut the current restarter down and forget it         <- {"ev":"ended"}
 //   -> {"cmd":"quit"}
 
@@ -134,6 +137,50 @@ func parentMain(args []string) error {
 		}
 	}
 
+	// descriptor shortage (transient accept failure)
+	var hogMu sync.Mutex
+	var hog []int
+	var savedLim *syscall.Rlimit
+	feed := func() {
+		hogMu.Lock()
+		defer hogMu.Unlock()
+		for _, h := range hog {
+			syscall.Close(h)
+		}
+		hog = nil
+		if savedLim != nil {
+			syscall.Setrlimit(syscall.RLIMIT_NOFILE, savedLim)
+			savedLim = nil
+		}
+	}
+	starve := func() (int, error) {
+		hogMu.Lock()
+		defer hogMu.Unlock()
+		var lim syscall.Rlimit
+		if err := syscall.Getrlimit(syscall.RLIMIT_NOFILE, &lim); err != nil {
+			return 0, err
+		}
+		low := lim
+		if low.Cur > 256 {
+			low.Cur = 256
+		}
+		if err := syscall.Setrlimit(syscall.RLIMIT_NOFILE, &low); err != nil {
+			return 0, err
+		}
+		savedLim = &lim
+		for {
+			h, err := syscall.Open("/dev/null", syscall.O_RDONLY|syscall.O_CLOEXEC, 0)
+			if err != nil {
+				if err != syscall.EMFILE {
+					return len(hog), err
+				}
+				break
+			}
+			hog = append(hog, h)
+		}
+		return len(hog), nil
+	}
+
 	sc := bufio.NewScanner(in)
 	sc.Buffer(make([]byte, 1<<16), 1<<20)
 	for sc.Scan() {
@@ -192,7 +239,20 @@ func parentMain(args []string) error {
 			}()
 		case "sync":
 			out.emit(pev{Ev: "sync", N: c.N})
+		case "starve":
+			n, err := starve()
+			if err != nil {
+				feed()
+				out.emit(pev{Ev: "err", X: "starve: " + err.Error()})
+				continue
+			}
+			time.AfterFunc(2*time.Second, feed) // a shortage is transient by construction
+			out.emit(pev{Ev: "starved", N: n})
+		case "feed":
+			feed()
+			out.emit(pev{Ev: "fed"})
 		case "end":
+			feed()
 			endSession()
 			flushSignals()
 			out.emit(pev{Ev: "ended"})
